@@ -5,10 +5,17 @@ import os, sys, shutil, io, gc, contextlib, glob, traceback, multiprocessing, si
 import fw
 
 MAIN_PID = os.getpid()
-STATE = {'faults': [], 'counts': {}, 'out': '/nonexistent/out.bam'}
+STATE = {'faults': [], 'counts': {}, 'out': '/nonexistent/out.bam', 'fired': []}
 SHARED = multiprocessing.Value('i', 0)      # number of run_tagging_tasks calls (all processes)
 MOLS = multiprocessing.Value('i', 0)        # number of write_pysam calls (all processes)
 ORIG = {}
+
+
+CASE_TIMEOUT = 40
+
+
+class HarnessTimeout(BaseException):
+    pass
 
 
 class Injected(Exception):
@@ -46,6 +53,7 @@ def hit(point, **ctx):
             continue
         if 'first' in flt and k >= flt['first']:
             continue
+        STATE['fired'].append(point)
         return flt
     return None
 
@@ -157,15 +165,22 @@ def install():
         return ORIG['write_tags'](self, *a, **kw)
 
     def p_miter(self):
+        # 'mol_next' after k: the iterator raises instead of delivering molecule k (k counts the
+        # molecules of all iterators of this process); 'mol_end': it raises when it is exhausted and
+        # `total` molecules have been delivered (the last next() of the chained iterators)
         it = ORIG['miter'](self)
         while True:
-            flt = hit('mol_next')
-            if flt:
-                boom(flt)
             try:
                 m = next(it)
             except StopIteration:
+                for flt in STATE['faults']:
+                    if flt['point'] == 'mol_end' and STATE['counts'].get('mol_next', 0) == flt['total']:
+                        STATE['fired'].append('mol_end')
+                        boom(flt)
                 return
+            flt = hit('mol_next')
+            if flt:
+                boom(flt)
             yield m
 
     def p_merge_bams(*a, **kw):
@@ -306,11 +321,27 @@ def prepare_inputs(scratch, repo, small_n):
         INPUTS[name] = dst
     # a smaller nla library: the first small_n records of the real test file (same header)
     dst = os.path.join(scratch, 'in_nla_small.bam')
-    with pysam.AlignmentFile(INPUTS['nla_full']) as f, pysam.AlignmentFile(dst, 'wb', header=f.header) as o:
+    # (header reduced to the contigs these records use: the full header has thousands of @SQ lines
+    #  and costs 2 s per tagger run)
+    with pysam.AlignmentFile(INPUTS['nla_full']) as f:
+        recs = []
         for i, r in enumerate(f):
             if i >= small_n:
                 break
-            o.write(r)
+            recs.append(r.to_dict())
+        used = set()
+        for r in recs:
+            used.add(r['ref_name'])
+            used.add(r['next_ref_name'])
+        hd = f.header.to_dict()
+        hd['SQ'] = [sq for sq in hd['SQ'] if sq['SN'] in used]
+        rgs = set(t[5:] for r in recs for t in r['tags'] if t.startswith('RG:Z:'))
+        if 'RG' in hd:   # 86784 @RG lines (9 MB) in the test file
+            hd['RG'] = [rg for rg in hd['RG'] if rg.get('ID') in rgs]
+    header = pysam.AlignmentHeader.from_dict(hd)
+    with pysam.AlignmentFile(dst, 'wb', header=header) as o:
+        for r in recs:
+            o.write(pysam.AlignedSegment.from_dict(r, header))
     ORIG['index'](dst) if 'index' in ORIG else pysam.index(dst)
     INPUTS['nla'] = dst
 
@@ -326,6 +357,7 @@ def command(case, inp, out):
 def run_tagger(tm, case, d, out, faults):
     STATE['faults'] = faults
     STATE['counts'] = {}
+    STATE['fired'] = []
     STATE['out'] = os.path.abspath(out)
     SHARED.value = 0
     MOLS.value = 0
@@ -338,10 +370,16 @@ def run_tagger(tm, case, d, out, faults):
     cwd = os.getcwd()
     os.chdir(d)
     buf = io.StringIO()
+    def on_alarm(signum, frame):
+        raise HarnessTimeout('tagger did not return within %d s' % CASE_TIMEOUT)
+    old_handler = signal.signal(signal.SIGALRM, on_alarm)
+    signal.alarm(CASE_TIMEOUT)
     try:
         with contextlib.redirect_stdout(buf), contextlib.redirect_stderr(buf):
             tm.run_multiome_tagging_cmd(command(case, inp, out))
         raised = 0
+    except HarnessTimeout as e:
+        raised, err = 3, 'HANG: %s' % e
     except InjectedBase as e:
         raised, err = 2, 'InjectedBase: %s' % e
     except Injected as e:
@@ -353,12 +391,14 @@ def run_tagger(tm, case, d, out, faults):
     except BaseException as e:
         raised, err = 1, '%s: %s' % (type(e).__name__, str(e)[:200])
     finally:
+        signal.alarm(0)
+        signal.signal(signal.SIGALRM, old_handler)
         os.chdir(cwd)
         STATE['faults'] = []
         for p in multiprocessing.active_children():
             p.terminate()
         gc.collect()
-    return raised, err, dict(STATE['counts']), SHARED.value, MOLS.value
+    return raised, err, dict(STATE['counts'], fired=list(STATE['fired'])), SHARED.value, MOLS.value
 
 
 def handler(p):
@@ -382,6 +422,9 @@ def handler(p):
                             'molecules': mols, 'jobs': jobs, 'calls': counts, 'seconds': round(time.time() - t0, 2),
                             'leftovers': obs['leftovers'], 'status_text': obs['status_text']}
     for n, case in enumerate(p['cases']):
+        if os.environ.get('C20_DEBUG'):
+            sys.stderr.write('case %d %r\n' % (n, case))
+            sys.stderr.flush()
         try:
             cfg = p['configs'][case['config']]
             full = dict(cfg)
@@ -396,7 +439,8 @@ def handler(p):
                 os.utime(os.path.join(d, 'out.bam.bai'))
             raised, err, counts, jobs, mols = run_tagger(tm, full, d, o, case['faults'])
             obs = observe(d, o, ref['recs'])
-            obs.update({'raised': raised, 'error': err, 'jobs': jobs, 'molecules': mols})
+            obs.update({'raised': raised, 'error': err, 'jobs': jobs, 'molecules': mols,
+                        'fired': counts.get('fired', []) + (['worker-side'] if err and 'njected' in err and not counts.get('fired') else [])})
             out['cases'].append(obs)
             shutil.rmtree(d, ignore_errors=True) if 'rmtree' not in ORIG else ORIG['rmtree'](d, ignore_errors=True)
         except BaseException as e:
@@ -406,3 +450,6 @@ def handler(p):
 
 if __name__ == '__main__':
     fw.impl_main(handler)
+    # pools whose worker failed are never closed by the tagger; do not wait for them at exit
+    sys.stdout.flush()
+    os._exit(0)
